@@ -111,10 +111,10 @@ def place_rules(ctx, facts, rep):
     except PathExplosion:
         pz = None
     if pz is not None:
-        KNOWN = r"^self\.writing_to_extra_field$|^self\.writing_to_central_extra_field_only$|\.large_file$|^discr\(Try::branch\(|^discr\(TryInto::try_into\(|^discr\(TryFrom::try_from\(|^discr\(ok\(|^#iter$"
+        KNOWN = r"^(mem::(take|replace)\()?self\.writing_to_extra_field(, \w+)?\)?$|^(mem::(take|replace)\()?self\.writing_to_central_extra_field_only(, \w+)?\)?$|\.large_file$|^discr\(Try::branch\(|^discr\(TryInto::try_into\(|^discr\(TryFrom::try_from\(|^discr\(ok\(|^#iter$"
         extra = sorted({a_[:70] for p_ in pz for a_, v_ in p_["decisions"] if not re.search(KNOWN, a_)})
         okp = [p_ for p_ in pz if _outcome(p_)[0] == "Ok"]
-        local = [p_ for p_ in okp if any(a_ == "self.writing_to_central_extra_field_only" and v_ == 0 for a_, v_ in p_["decisions"])]
+        local = [p_ for p_ in okp if any(re.search(r"self\.writing_to_central_extra_field_only", a_) and v_ == 0 for a_, v_ in p_["decisions"])]
         sw = all(any(e_[1].endswith("switch_to") for e_ in p_["effects"]) for p_ in local)
         ok &= rep.check(bool(local) and sw and not extra, rule, "compressor-switched-on-every-local-path", where(ee, ee.span),
                         "every successful non-central-only path switches to the entry's compressor; nothing but the mode flags / large_file / results decides",
